@@ -10,7 +10,7 @@ import itertools
 import re
 
 from ..astq import walk, kids, strip, canon, qt, dqt, where
-from ..evalx import Interp, SymVal, Unsupported
+from ..evalx import Interp, SymVal, Unsupported, Ref
 from ..extract import AnalysisBroken
 
 FILL = ["EvenOdd", "NonZero", "Positive", "Negative"]
@@ -1050,14 +1050,53 @@ def table_insertion_wind(db, chk, cfg, rule="T.wind-insert"):
         chk.violation(rule, f.qual, "wc2=%d/dx2=%d/dx=%d" % (cell["e2.wind_cnt"], cell["e2.wind_dx"], cell["e.wind_dx"]),
                       "wind_cnt of a newly inserted edge deviates from the definition on %d cell(s); first: %s, expected %d" % (len(bad), cell, want),
                       where(site), cfg=cfg)
-    # structure of the wind_cnt2 accumulation: other-type closed edges between the neighbour and e contribute their wind_dx
-    txt = canon(f.body)
-    ok2 = "(e.wind_cnt2 += e2->wind_dx)" in txt and "(e.wind_cnt2 = e2->wind_cnt2)" in txt
+    # the wind_cnt2 accumulation: every other-type closed edge between the neighbour and e contributes (its wind_dx; a toggle under
+    # EvenOdd), same-type and open edges contribute nothing; the start value is the neighbour's wind_cnt2.  The loop bodies are interpreted.
+    loops = [x for x in walk(f.body) if x.get("kind") == "WhileStmt" and any(
+        y.get("kind") == "MemberExpr" and y.get("name") == "wind_cnt2" for y in walk(kids(x)[-1]))]
+    ok2 = len(loops) == 2
+    detail = []
+    if ok2:
+        for lp in loops:
+            body = kids(lp)[-1]
+            for other_type in (False, True):
+                for is_open in (False, True):
+                    for start in (0, 1, -2, 3):
+                        for d in (-1, 1):
+                            def hook(name, argv, nd, other_type=other_type, is_open=is_open):
+                                if name == "GetPolyType":
+                                    a0 = canon(db.call_args(nd)[0])
+                                    return 1 if (other_type and "e2" in a0) else 0
+                                if name == "IsOpen":
+                                    return is_open
+                                return NotImplemented
+                            env = {"e.wind_cnt2": start, "e2->wind_dx": d, "pt": 0, "e2->next_in_ael": Ref("E3")}
+                            it = Interp(db, env, [], call_hook=hook)
+                            try:
+                                it.exec(body)
+                            except Unsupported as ex:
+                                raise AnalysisBroken("cannot interpret the wind_cnt2 loop of SetWindCountForClosedPathEdge: %s" % ex)
+                            got = it.env["e.wind_cnt2"]
+                            detail.append((other_type, is_open, start, d, got))
+        # classify the two loops: one adds wind_dx, the other toggles 0/1 (on the EvenOdd domain start in {0,1})
+        half = len(detail) // 2
+
+        def adds(rows):
+            return all(g == (st + d if (ot and not op) else st) for ot, op, st, d, g in rows)
+
+        def toggles(rows):
+            return all(g == ((1 - st) if (ot and not op) else st) for ot, op, st, d, g in rows if st in (0, 1))
+        l1, l2 = detail[:half], detail[half:]
+        ok2 = (adds(l1) and toggles(l2)) or (adds(l2) and toggles(l1))
+    starts = [x for x in walk(f.body) if x.get("kind") == "BinaryOperator" and x.get("opcode") == "=" and canon(kids(x)[0]) == "e.wind_cnt2"
+              and canon(kids(x)[1]) == "e2->wind_cnt2"]
+    if len(starts) < 2:
+        ok2 = False
     n += 1
-    chk.instance(rule, {"obligation": "wind_cnt2 starts from the neighbour's and adds wind_dx of the other-type closed edges in between", "cfg": cfg}, ok=ok2)
+    chk.instance(rule, {"obligation": "wind_cnt2 starts from the neighbour's and adds wind_dx (EvenOdd: toggles) per other-type closed edge in between", "cfg": cfg}, ok=ok2)
     if not ok2:
-        chk.violation(rule, f.qual, "wind_cnt2", "the accumulation of wind_cnt2 (start from e2->wind_cnt2, += e2->wind_dx per other-type closed edge) changed",
-                      f.where, cfg=cfg)
+        chk.violation(rule, f.qual, "wind_cnt2", "the accumulation of wind_cnt2 (start from e2->wind_cnt2; per other-type closed edge between the neighbour and "
+                      "the new edge add its wind_dx, or toggle under EvenOdd; nothing for same-type or open edges) changed", f.where, cfg=cfg)
     return n
 
 
@@ -1479,3 +1518,137 @@ def lines_shortcuts(db, chk, cfg, rule="T.rect"):
     if problems:
         chk.violation(rule, f.qual, "lines-shortcuts", "; ".join(problems), f.where, cfg=cfg)
     return 1
+
+
+# ---------------------------------------------------------------------------
+# RectClip / RectClipLines: the main scan starts at the first segment (C08, C09)
+# ---------------------------------------------------------------------------
+
+def scan_start_rule(db, chk, cfg, qual, expected, rule="SCAN.start"):
+    """ExecuteInternal first looks for a vertex that is not on the rectangle's boundary (a pre-scan that may advance the cursor) and
+    then walks the path segment by segment in its main loop.  Whatever the pre-scan did, the main loop must start at the first
+    segment: the cursor has the constant value `expected` at the loop's first test on every path that reaches it (constant
+    propagation of the cursor over the structured CFG).  Otherwise the leading segments are never clipped."""
+    from ..flow import Walker, Client
+    f = db.one(qual)
+    main = None
+    for x in kids(f.body):
+        if x.get("kind") == "WhileStmt" and any(y.get("kind") in ("CallExpr", "CXXMemberCallExpr") and db.callee(y)[0] == "GetNextLocation" for y in walk(kids(x)[-1])):
+            main = x
+    if main is None:
+        raise AnalysisBroken("%s: main loop (the top-level while that calls GetNextLocation) not found" % qual)
+    cond = kids(main)[-2]
+    cur = None
+    for y in walk(cond):
+        if y.get("kind") == "DeclRefExpr" and y.get("referencedDecl", {}).get("kind") == "VarDecl":
+            cur = y["referencedDecl"]["name"]
+            break
+    if cur is None:
+        raise AnalysisBroken("%s: cursor of the main loop not recognised" % qual)
+    cond_ids = {id(y) for y in walk(cond)}
+    seen = []
+
+    class C(Client):
+        def join(self, a, b):
+            return a if a == b else "TOP"
+
+        def _apply(self, node, st):
+            for y in walk(node):
+                k = y.get("kind")
+                if k == "VarDecl" and y.get("name") == cur:
+                    init = [c for c in kids(y) if isinstance(c, dict) and c.get("kind")]
+                    v = strip(init[-1]) if init else None
+                    st = ("const", int(v.get("value"))) if v is not None and v.get("kind") == "IntegerLiteral" else "TOP"
+                elif k == "BinaryOperator" and y.get("opcode") == "=" and canon(kids(y)[0]) == cur:
+                    v = strip(kids(y)[1])
+                    st = ("const", int(v.get("value"))) if v.get("kind") == "IntegerLiteral" else "TOP"
+                elif k in ("UnaryOperator", "CompoundAssignOperator") and y.get("opcode") in ("++", "--", "+=", "-=", "*=", "/=") \
+                        and canon(kids(y)[0]) == cur:
+                    st = "TOP"
+                elif k in ("CallExpr", "CXXMemberCallExpr"):
+                    # passed by non-const reference (GetNextLocation(path, loc, i, highI) advances the cursor)
+                    g = db.callee_func(y)
+                    for p, a in zip(g.params if g else [], db.call_args(y)):
+                        if canon(a) == cur and "&" in qt(p) and "const" not in qt(p):
+                            st = "TOP"
+            return st
+
+        def stmt(self, node, st):
+            return self._apply(node, st)
+
+        def cond_atom(self, expr, st):
+            if id(expr) in cond_ids or any(id(y) in cond_ids for y in walk(expr)):
+                if not seen:
+                    seen.append(st)
+            s = self._apply(expr, st)
+            return s, s
+
+    Walker(C()).function(f.body, "UNDEF")
+    if not seen:
+        raise AnalysisBroken("%s: the main loop's condition was never reached by the dataflow" % qual)
+    got = seen[0]
+    ok = got == ("const", expected)
+    chk.instance(rule, {"function": f.qual, "cursor": cur, "value_at_first_test_of_the_main_loop": got if got in ("TOP", "UNDEF") else got[1],
+                        "expected": expected, "cfg": cfg}, ok=ok)
+    if not ok:
+        chk.violation(rule, f.qual, cur, "the main loop of %s does not certainly start at the first segment: its cursor `%s` is %s at the loop's first "
+                      "test (must be the constant %d on every path): a pre-scan that advanced it is not undone, so leading segments are skipped"
+                      % (f.qual, cur, "not a known constant" if got == "TOP" else ("unset" if got == "UNDEF" else "the constant %d" % got[1]), expected),
+                      where(main), cfg=cfg)
+    return 1
+
+
+# ---------------------------------------------------------------------------
+# DoSplitOp: the intersection vertex is inserted only where it is a new vertex (C03)
+# ---------------------------------------------------------------------------
+
+def split_insert_rule(db, chk, cfg, rule="SPLIT.no-duplicate"):
+    """When DoSplitOp removes a micro self-intersection it re-joins prevOp and nextNextOp, inserting the (rounded) intersection
+    point between them - but only if it differs from both: a copy of prevOp->pt or nextNextOp->pt next to the original would be a
+    repeated vertex in the solution (the path builders only drop repeats inside their walk, not last against first)."""
+    from ..astq import if_parts
+    f = db.one("ClipperBase::DoSplitOp")
+    sites = []
+    for x in walk(f.body):
+        if x.get("kind") == "IfStmt":
+            cond, then, els = if_parts(x)
+            if els is None:
+                continue
+            new_then = [y for y in walk(then) if y.get("kind") == "CXXNewExpr" and "OutPt" in qt(y)]
+            new_else = [y for y in walk(els) if y.get("kind") == "CXXNewExpr" and "OutPt" in qt(y)]
+            ct = canon(cond)
+            if (bool(new_then) != bool(new_else)) and "ip" in ct and "prevOp" in canon(x) and "nextNextOp" in canon(x) and "OutRec" not in ct:
+                sites.append((x, cond, bool(new_then)))
+    if len(sites) != 1:
+        raise AnalysisBroken("DoSplitOp: the branch that either links prevOp to nextNextOp directly or inserts the intersection point between them "
+                             "was not found uniquely (%d)" % len(sites))
+    node, cond, insert_when_true = sites[0]
+    n = 0
+    for eq_prev in (False, True):
+        for eq_nn in (False, True):
+            def hook(name, argv, nd, eq_prev=eq_prev, eq_nn=eq_nn):
+                if name in ("operator==", "operator!="):
+                    a = sorted(canon(z) for z in db.call_args(nd))
+                    if a == sorted(["ip", "prevOp->pt"]):
+                        r = eq_prev
+                    elif a == sorted(["ip", "nextNextOp->pt"]):
+                        r = eq_nn
+                    else:
+                        return NotImplemented
+                    return r if name == "operator==" else (not r)
+                return NotImplemented
+            it = Interp(db, {}, [], call_hook=hook)
+            try:
+                c = bool(_eval_with_opaque(it, cond))
+            except Unsupported as e:
+                raise AnalysisBroken("cannot interpret DoSplitOp's insertion guard: %s" % e)
+            inserted = c if insert_when_true else (not c)
+            want = (not eq_prev) and (not eq_nn)
+            n += 1
+            chk.instance(rule, {"ip_equals_prevOp": eq_prev, "ip_equals_nextNextOp": eq_nn, "new_vertex_inserted": inserted, "cfg": cfg}, ok=(inserted == want))
+            if inserted != want:
+                chk.violation(rule, f.qual, "prev=%s/nn=%s" % (eq_prev, eq_nn), "DoSplitOp %s the intersection point when ip %s prevOp->pt and ip %s nextNextOp->pt; "
+                              "it must be inserted exactly when it differs from both neighbours (otherwise the solution gets a repeated vertex, or loses "
+                              "the crossing point)" % ("inserts" if inserted else "does not insert", "==" if eq_prev else "!=", "==" if eq_nn else "!="),
+                              where(node), cfg=cfg)
+    return n
